@@ -17,6 +17,48 @@ type entry struct {
 	keys    *ssa.Parameter
 	guard   ssa.CallInstruction // call of the layout-signature guard on (env, keys)
 	guardFn *ssa.Function
+	// head helper: the guard sits in an unexported helper that the entry point calls with (env, keys) and whose every
+	// success return lies under the guard's nil-error edge; guard is then the call of the helper
+	head      *ssa.Function
+	headGuard ssa.CallInstruction
+}
+
+// isGuardShaped: g is a function (Metadata, map[string]Key) error of package in_toto.
+func (p *Prog) isGuardShaped(g *ssa.Function) bool {
+	if g == nil || g.Pkg != p.pkg("in_toto") {
+		return false
+	}
+	ps := g.Signature.Params()
+	if ps.Len() != 2 || typeStr(ps.At(0).Type()) != "in_toto.Metadata" || typeStr(ps.At(1).Type()) != "map[string]in_toto.Key" {
+		return false
+	}
+	rs := resultTypes(g)
+	return len(rs) == 1 && rs[0] == "error"
+}
+
+// frameEntry describes the unexported helper h, called at site with the entry point's env / keys among its arguments,
+// as an entry-like frame of its own (env, keys = the parameters that receive them).
+func (p *Prog) frameEntry(e entry, site ssa.CallInstruction) (entry, bool) {
+	h := site.Common().StaticCallee()
+	if h == nil || h.Blocks == nil || h.Pkg != p.pkg("in_toto") || h.Object() == nil || h.Object().Exported() || h.Parent() != nil {
+		return entry{}, false
+	}
+	fe := entry{f: h}
+	for i, a := range callArgs(site) {
+		if i >= len(h.Params) {
+			break
+		}
+		if a == ssa.Value(e.env) {
+			fe.env = h.Params[i]
+		}
+		if e.keys != nil && a == ssa.Value(e.keys) {
+			fe.keys = h.Params[i]
+		}
+	}
+	if fe.env == nil {
+		return entry{}, false
+	}
+	return fe, true
 }
 
 func (p *Prog) entryPoints() []entry {
@@ -63,6 +105,23 @@ func (p *Prog) entryPoints() []entry {
 				break
 			}
 		}
+		if e.guard == nil {
+			// the shared head of the entry points extracted into a helper
+			for _, c := range allCalls(f) {
+				fe, ok := p.frameEntry(e, c)
+				if !ok || fe.keys == nil || !hasErrResult(c) {
+					continue
+				}
+				for _, ic := range allCalls(fe.f) {
+					if p.isGuardShaped(ic.Common().StaticCallee()) && ic.Common().Args[0] == ssa.Value(fe.env) && ic.Common().Args[1] == ssa.Value(fe.keys) && p.helperGuarantees(fe.f, ic) {
+						e.guard, e.guardFn, e.head, e.headGuard = c, ic.Common().StaticCallee(), fe.f, ic
+					}
+				}
+				if e.guard != nil {
+					break
+				}
+			}
+		}
 		out = append(out, e)
 	}
 	return out
@@ -84,6 +143,28 @@ func (p *Prog) layoutValue(e entry, v ssa.Value, at ssa.Instruction, depth int) 
 			}
 			return "payload", "GetPayload() of parameter " + e.env.Name() + " asserted to Layout (comma-ok)"
 		}
+		if c, ok := ex.Tuple.(*ssa.Call); ok && depth < 3 {
+			// result of an unexported helper that received the verified Metadata: every success return of the helper
+			// hands back, at this position, a layout obtained from that Metadata's payload
+			if fe, isFrame := p.frameEntry(e, c); isFrame && typeStr(ex.Type()) == "in_toto.Layout" {
+				rets := p.nilErrReturns(fe.f)
+				okAll := len(rets) > 0
+				why := ""
+				for _, r := range rets {
+					if ex.Index >= len(r.Results) {
+						okAll = false
+						break
+					}
+					if k, d := p.layoutValue(fe, r.Results[ex.Index], r, depth+1); k == "" {
+						okAll, why = false, d
+					}
+				}
+				if okAll {
+					return "derived", fmt.Sprintf("result %d of helper %s, which hands back a layout from the payload of its Metadata parameter on every success return", ex.Index, fname(fe.f))
+				}
+				return "", "result of helper " + fname(fe.f) + ": " + why
+			}
+		}
 		if c, ok := ex.Tuple.(*ssa.Call); ok && ex.Index == 0 && depth < 3 {
 			g := c.Common().StaticCallee()
 			if g != nil && g.Pkg == p.pkg("in_toto") {
@@ -104,6 +185,15 @@ func (p *Prog) layoutValue(e entry, v ssa.Value, at ssa.Instruction, depth int) 
 	}
 	if ta, ok := r.(*ssa.TypeAssert); ok && !ta.CommaOk {
 		return "", "unchecked type assertion"
+	}
+	// a merge of layouts each of which comes from the verified payload (substituted or not)
+	if ph, ok := r.(*ssa.Phi); ok && depth < 3 {
+		for _, ed := range ph.Edges {
+			if k, d := p.layoutValue(e, ed, ph, depth+1); k == "" {
+				return "", d
+			}
+		}
+		return "derived", "merge of layouts from the verified payload"
 	}
 	// a Layout parameter of an unexported helper: every call site must pass a verified payload layout
 	if prm, ok := r.(*ssa.Parameter); ok && p.isStageHelper(prm.Parent()) && depth < 3 {
@@ -201,7 +291,7 @@ func (p *Prog) trustingCalls(e entry) []ssa.CallInstruction {
 	fromParams := func(v ssa.Value) bool {
 		// values that reach the call only through the guard's own (error) result do not count
 		if e.guard != nil {
-			if gv := e.guard.Value(); gv != nil && derives(v, func(x ssa.Value) bool { return x == gv }, true) {
+			if gv := e.guard.Value(); gv != nil && isErrorType(gv.Type()) && derives(v, func(x ssa.Value) bool { return x == gv }, true) {
 				viaOther := derivesAvoiding(v, func(x ssa.Value) bool { return x == ssa.Value(e.env) || x == ssa.Value(e.keys) }, gv)
 				return viaOther
 			}
